@@ -1469,10 +1469,14 @@ func (fx *FuncExec) execConvert(st *State, x *ssa.Convert) {
 			fx.em.Assert(eq(n, "(gs.len "+v.S+")"))
 			fx.em.Assert(fmt.Sprintf("(forall ((i Int)) (! (=> (and (<= 0 i) (< i %s)) (= (select %s i) (gs.at %s i))) :pattern ((select %s i))))", n, inner, v.S, inner))
 		} else {
+			// []rune(s): a deterministic function of s - its length is gs.runecount(s), its elements gs.runes(s)
+			fx.em.DeclareBase("gs.runecount", "(declare-fun gs.runecount (Str) Int)\n(declare-fun gs.runes (Str) (Array Int Int))")
+			fx.em.Assert(eq(n, "(gs.runecount "+v.S+")"))
+			fx.em.Assert(eq(inner, "(gs.runes "+v.S+")"))
 			fx.em.Assert(and(fmt.Sprintf("(<= 0 %s)", n), fmt.Sprintf("(<= %s (gs.len %s))", n, v.S)))
 			fx.em.Assert(imp(eq("(gs.len "+v.S+")", "0"), eq(n, "0")))
 			fx.em.Assert(imp(fmt.Sprintf("(> (gs.len %s) 0)", v.S), fmt.Sprintf("(> %s 0)", n)))
-			fx.note("[]rune(string): rune count is between 1 and the byte length for non-empty strings; rune values are not related to bytes")
+			fx.note("[]rune(string): a deterministic function of the string (rune count between 1 and the byte length for non-empty strings); rune values are not related to bytes")
 		}
 		st.heaps[key] = fx.em.DefineRaw(key, arr2Sort(es), sto(h, arr, inner))
 		fx.logWriteAt(key, arr)
